@@ -30,6 +30,8 @@ META["explanation"] += " " + '(UNS-shift) in powerOfPositiveTen an unsigned diff
 U64 = (1 << 64) - 1
 
 
+META["explanation"] += " " + '(ERR-scan) see C07. (RANGE-nonzero) the rejection that compares the decimal exponent with 309 / 324 is dominated by the true edge of number.Natural != 0: 0e400 is zero.'
+
 def run(ctx):
     m = ctx.pattern()
     rules = []
@@ -226,6 +228,9 @@ def run(ctx):
     rules.append(rule_window(ctx, m))
     rules.append(rule_field_fit(ctx, m))
     rules.append(rule_unsigned_shift(ctx, m))
+    rules.append(rule_range_nonzero(ctx, m))
+    from rules.common import rule_scanner_result
+    rules.append(rule_scanner_result(ctx, m, ["Digit.hpp"]))
     return rules
 
 
@@ -403,4 +408,44 @@ def rule_unsigned_shift(ctx, m):
                                         undecided.append("%s %s at %s" % (f.name, f.text(x)[:40], f.loc(x)[0] if isinstance(f.loc(x), tuple) else f.loc(x)))
                 z.transfer(f, st, e, blocks[bid])
     r.notes.append("not decided (no guarding test; relies on the magnitude of the scaled number): " + "; ".join(sorted(set(undecided))))
+    return r
+
+
+def rule_range_nonzero(ctx, m):
+    """RANGE-nonzero: a numeral is out of range when its VALUE is beyond the doubles, and the scanner decides that from the
+    decimal exponent alone (more than 309 / less than -324 after the digit count is added).  That is only a statement about the
+    value when the mantissa is not zero: 0e400 and 0.0e-400 are zero.  Every rejection whose condition compares the exponent with
+    those limits is dominated by the true edge of `number.Natural != 0` (or the false edge of `== 0`)."""
+    from qlib import dataflow
+    r = Rule("RANGE-nonzero", "the exponent-range rejection of the number scanner is reached only for a non-zero mantissa", floor=1)
+    fs = [f for f in m.fns("Qentem::Digit::stringToNumber", required=False) if not f.inst and f.cfg]
+    if not fs:
+        r.broke("Digit::stringToNumber not found")
+        return r
+    f = fs[0]
+    ctx.note_fn(f)
+    found = 0
+    for i in astq.nodes_of(f, "IfStmt"):
+        cond = f.nodes[i]["cond"]
+        lits = set(f.const_value(y) for y in f.walk(cond) if f.nodes[y]["k"] in ("IntegerLiteral", "CXXFunctionalCastExpr", "InitListExpr"))
+        if not ({309, 324, 308, 323} & lits):
+            continue
+        if not any("NotANumber" in f.text(x) for x in astq.returns(f, f.nodes[i]["then"])):
+            continue
+        found += 1
+        ok, via = False, None
+        for y in f.walk():
+            yn = f.nodes[y]
+            if yn["k"] == "BinaryOperator" and yn["op"] in ("!=", "==", ">") and "Natural" in f.text(yn["ch"][0]) and f.const_value(f.strip_casts(yn["ch"][1])) == 0:
+                try:
+                    tgt = [x for x in astq.returns(f, f.nodes[i]["then"]) if "NotANumber" in f.text(x)][0]
+                    if dataflow.dominated_by_branch(f, tgt, y, yn["op"] != "=="):
+                        ok, via = True, y
+                        break
+                except Exception:
+                    pass
+        r.ob(f.q, f.text(cond)[:70], ok, "reached only under `%s`" % f.text(via) if ok else
+             "the exponent-range rejection is reached for a zero mantissa too: 0e400 and 0.0e-400 are zero, not out of range", f.loc(i))
+    if not found:
+        r.broke("stringToNumber: the exponent-range rejection (309 / 324) was not found")
     return r
